@@ -25,30 +25,30 @@ Lemma nlen_concat_ge (l : list bytes) : Forall nonempty l -> nlen l <= nlen (con
 Proof. induction 1 as [|x t Hx Ht IH]; cbn [nlen concat]; [lia|]. rewrite nlen_app. unfold nonempty in Hx. lia. Qed.
 
 (* ---- joinFragments never slices out of range and returns exactly [size] bytes ---- *)
-Lemma join_aux_some frags : forall size n acc, n <= size ->
-  exists r, join_aux frags size n acc = Some r /\ nlen r = nlen acc + (size - n).
+Lemma join_aux_some frags : forall size n, n <= size ->
+  exists r, join_aux frags size n = Some r /\ nlen r = size - n.
 Proof.
-  induction frags as [|p t IH]; intros size n acc H; cbn [join_aux].
-  - eexists. split; [reflexivity|]. now rewrite nlen_app, nlen_nrep.
+  induction frags as [|p t IH]; intros size n H; cbn [join_aux].
+  - eexists. split; [reflexivity|]. now rewrite nlen_nrep.
   - destruct (N.ltb_spec size n); [lia|].
-    destruct (IH size (n + nlen (ntake (size - n) p)) (acc ++ ntake (size - n) p)) as (r & Hr & Hl).
+    destruct (IH size (n + nlen (ntake (size - n) p))) as (r & Hr & Hl).
     + rewrite nlen_ntake. lia.
-    + exists r. split; [exact Hr|]. rewrite Hl, nlen_app, nlen_ntake. lia.
+    + rewrite Hr. eexists. split; [reflexivity|]. rewrite nlen_app, Hl, nlen_ntake. lia.
 Qed.
 Lemma join_some frags size : exists r, join frags size = Some r /\ nlen r = size.
-Proof. destruct (join_aux_some frags size 0 [] ltac:(lia)) as (r & H & L). exists r. split; [exact H|]. cbn [nlen] in L. lia. Qed.
+Proof. destruct (join_aux_some frags size 0 ltac:(lia)) as (r & H & L). exists r. split; [exact H|]. lia. Qed.
 
 (* join is exact when size is the total length *)
-Lemma join_aux_exact frags : forall size n acc,
-  n = nlen acc -> size = n + nlen (concat frags) -> join_aux frags size n acc = Some (acc ++ concat frags).
+Lemma join_aux_exact frags : forall size n,
+  size = n + nlen (concat frags) -> join_aux frags size n = Some (concat frags).
 Proof.
-  induction frags as [|p t IH]; intros size n acc Hn Hs; cbn [join_aux concat] in *.
-  - cbn [nlen] in Hs. replace (size - n) with 0 by lia. cbn [nrep]. reflexivity.
+  induction frags as [|p t IH]; intros size n Hs; cbn [join_aux concat] in *.
+  - cbn [nlen] in Hs. replace (size - n) with 0 by lia. reflexivity.
   - rewrite nlen_app in Hs. destruct (N.ltb_spec size n); [lia|].
-    rewrite ntake_all by lia. rewrite IH; [now rewrite <- app_assoc| rewrite nlen_app; lia | lia].
+    rewrite ntake_all by lia. rewrite IH by lia. reflexivity.
 Qed.
 Lemma join_exact frags : join frags (nlen (concat frags)) = Some (concat frags).
-Proof. unfold join. now rewrite join_aux_exact with (acc := []). Qed.
+Proof. unfold join. now apply join_aux_exact. Qed.
 
 (* ---- the element loop ---- *)
 Lemma parse_props fuel : forall w payload acc, nlen payload <= nlen fuel ->
